@@ -110,8 +110,23 @@ def wrap(e):
     return e
 
 
+CONCRETE = [False]      # conformance mode: no solver, scalars leave the model as real numpy scalars
+
+
 def box(v):
     """raw value -> user-visible scalar (numpy-scalar look-alike)."""
+    if CONCRETE[0] and not isinstance(v, z3.ExprRef):
+        import numpy as _np
+
+        if isinstance(v, bool):
+            return _np.bool_(v)
+        if isinstance(v, int):
+            return _np.int64(v)
+        if isinstance(v, Fraction):
+            return _np.float64(float(v))
+        if isinstance(v, float):
+            return _np.float64(v)
+        return v
     if isinstance(v, z3.ExprRef):
         v = wrap(v)
         if isinstance(v, z3.ExprRef):
@@ -368,6 +383,8 @@ def r_sqrt(a):
     else:
         if decide(_num(a) < 0):
             return _math.nan
+    if CONCRETE[0] and not is_sym(a):
+        return lift_float(_math.sqrt(float(a)))
     ex = cur()
     key = ("sqrt", str(a) if not is_sym(a) else a.sexpr())
     if key in ex.memo:
@@ -416,6 +433,8 @@ def irrational_const(tag, fval, key):
     if fval != fval or fval in (_math.inf, -_math.inf):
         return float(fval)
     fr = Fraction(fval)
+    if CONCRETE[0]:
+        return fr
     ex = cur()
     k = (tag,) + tuple(key)
     if k in ex.memo:
